@@ -11,6 +11,7 @@ L7  the reader decodes as many array elements as the type says (not as the bit s
 L8  the literal entry point returns Ok only when the token stream is exhausted and no error was recorded
 L9  a parser function that consumed an opening bracket consumes the matching closing bracket on every path to Ok
 L11 the type checker compares the end of a range literal with the max of its element type (typed and untyped ranges)
+L17 a number literal reaches its type only through the comparison with min() / max() of that type (no fallible conversion bypasses it)
 L16 the reader looks the decoded enum tag up with a checked access (an unknown tag is an error, not a panic)
 L15 range literals print as text that parses back: no Literal::Range for signed arrays, no suffix on an end above the type's max
 L14 is_of_type accepts a Range for the element kinds for which the checker re-types ranges
@@ -836,8 +837,78 @@ def rule_l16(ctx):
     return res
 
 
+def rule_l17(ctx):
+    """The literal parser hands its text to the checker; `check_or_constrain_signed / _unsigned` are where a number literal meets
+    the bounds of the type it is given.  For a literal node every path to the accepting exit has to pass the comparison of the
+    payload with min() / max() of the expected type - the only legitimate way around is that the expected type has no bounds (the
+    None answer of min() / max(), a value that depends on the expected type alone).  A conversion of the payload that can fail
+    (`i64::try_from(n).ok()`) and skips the comparison when it does lets `18446744073709551615` through as the i8 -1."""
+    res = RuleResult("L17", "a number literal reaches its type only through the comparison with min() / max(); only the type's own 'no bound' answer bypasses it")
+    INNER1 = (SELF1, ("inner",))
+    n = 0
+    for fid, cases in (("check::check_or_constrain_signed", (("NumUnsigned", ("max",)), ("NumSigned", ("min", "max")))),
+                       ("check::check_or_constrain_unsigned", (("NumUnsigned", ("max",)),))):
+        if not ctx.has_fn(fid):
+            raise AnchorMissing("L17: %s not found" % fid)
+        body = ctx.body(fid)
+        oks = [b for b, blk in enumerate(body.blocks) if not blk["cleanup"] for st in blk["stmts"]
+               if st["k"] == "assign" and st["place"]["l"] == 0 and st["rv"]["k"] == "aggregate" and st["rv"].get("variant") == "Ok"]
+        if not oks:
+            raise AnchorMissing("L17: %s has no accepting exit" % fid)
+        # None edges of Options that depend on the expected type alone (min() / max() / a zip of them)
+        free_edges = set()
+        for b in range(body.n):
+            info = body.switch_info(b)
+            if not (info and info[2].startswith("std::option::Option")):
+                continue
+            t = body.term(b)
+            d = t["discr"]
+            disc_defs = [x for x in body.defs().get(d["place"]["l"], []) if x[0] == "assign" and x[3]["rv"]["k"] == "discriminant"]
+            if not disc_defs:
+                continue
+            srcs = body.deep_sources({"k": "copy", "place": disc_defs[0][3]["rv"]["place"]}, 6)
+            roots = {r for (r, p) in srcs if r[0] == "arg"}
+            if roots and roots <= {("arg", 2)}:
+                listed = {v for v, _ in t["targets"]}
+                for v, x in t["targets"]:
+                    if info[1].get(v) == "None":
+                        free_edges.add((b, x))
+                if any(nm == "None" and v not in listed for v, nm in info[1].items()):
+                    free_edges.add((b, t["otherwise"]))
+        for variant, bounds in cases:
+            succ0 = body.pruned_succ({INNER1: variant})
+            for bound in bounds:
+                cmps = set()
+                for b, blk in enumerate(body.blocks):
+                    for st in blk["stmts"]:
+                        if st["k"] == "assign" and st["rv"]["k"] == "binop" and st["rv"]["op"] in ("Lt", "Le", "Gt", "Ge"):
+                            sides = [body.deep_sources(st["rv"]["l"], 5), body.deep_sources(st["rv"]["r"], 5)]
+                            has_payload = [any(r == SELF1 and ("as " + variant) in p for (r, p) in sd) for sd in sides]
+                            has_bound = [any(r[0] == "call" and mir.last_seg(str(r[2])) == bound for (r, p) in sd) for sd in sides]
+                            if (has_payload[0] and has_bound[1]) or (has_payload[1] and has_bound[0]):
+                                cmps.add(b)
+                if not cmps:
+                    res.bad(Finding("L17", fid, "%s literal is never compared with %s()" % (variant, bound),
+                                    "no comparison of the literal's payload with %s() of the expected type" % bound, body.fn["sp"]))
+                    continue
+                n += 1
+
+                def succ(x, succ0=succ0):
+                    return [y for y in succ0(x) if (x, y) not in free_edges and not body.blocks[y]["cleanup"]]
+                w = body.path(0, oks, blocked=cmps, succ=succ)
+                if w:
+                    res.bad(Finding("L17", fid, "%s literal can be accepted without the comparison with %s()" % (variant, bound),
+                                    "a path reaches the accepting exit without comparing the literal with %s() although the expected type has such a bound (blocks %s): "
+                                    "`18446744073709551615` is accepted for an i8 and becomes -1" % (bound, w[-6:]), body.term(w[-1])["sp"] if body.term(w[-1]) else body.fn["sp"]))
+                else:
+                    res.ok({"function": fid, "literal": variant, "bound": bound + "()", "verdict": "compared on every path on which the type has the bound"})
+    if n < 4 and not res.findings:
+        raise AnchorMissing("L17: expected four payload / bound comparisons in check_or_constrain_*, found %d" % n)
+    return res
+
+
 def run(ctx):
-    return ctx.run_rules([rule_l1, rule_l1b, rule_l2, rule_l3, rule_l4, rule_l5, rule_l6, rule_l7, rule_l8, rule_l9, rule_l10, rule_l11, rule_l12, rule_l13, rule_l14, rule_l15, rule_l16])
+    return ctx.run_rules([rule_l1, rule_l1b, rule_l2, rule_l3, rule_l4, rule_l5, rule_l6, rule_l7, rule_l8, rule_l9, rule_l10, rule_l11, rule_l12, rule_l13, rule_l14, rule_l15, rule_l16, rule_l17])
 
 
 # ---- the literal parser ------------------------------------------------------------------------------
